@@ -225,6 +225,8 @@ CLAIMS = {
               "directions differ between the builds (operator ties decided by the last bit).")),
 }
 
+TIEC_FULL = {"C01", "C02", "C04", "C05", "C06", "C09", "C14", "C16", "C18"}
+TIEC_STRUCT = {"C07", "C11"}
 WIP = "check not registered yet in this revision (model/theorems under construction); see DESIGN.md §8"
 
 
@@ -233,7 +235,16 @@ def main():
     for p in ALL:
         if p not in CLAIMS:
             continue
-        c = CLAIMS[p]
+        c = dict(CLAIMS[p])
+        if p in TIEC_FULL:
+            c["technique"] += " + the kernels' bodies re-translated from the source into Lean on every run with machine-checked equivalence to the model (translator harness/translate.py)"
+            c["text"] += (" In addition the bodies of the numeric kernels concerned are re-translated from /repo's source into Lean "
+                          "definitions on every run and proved equal to the model the theorems are about (for every scalar type), so the "
+                          "theorems are re-checked against what the source says now.")
+        elif p in TIEC_STRUCT:
+            c["technique"] += " + theorems proved directly about the sweep kernels re-translated from the source into Lean on every run"
+            c["text"] += (" In addition the body of `sweep` (2D, 3D) is re-translated from /repo's source into a Lean definition on every "
+                          "run and the structural fact the property needs is proved directly about that definition, with no hypotheses.")
         checks.append({
             "property_id": p,
             "quick_cmd": f"/venv/bin/python harness/check.py {p} --tier quick",
@@ -256,7 +267,8 @@ def main():
         "engines": [{"name": "lean4+correspondence", "path": "lean/ harness/",
                      "serves_properties": sorted(CLAIMS),
                      "kind_free_text": "Lean 4 model + theorems (lake project lean/), Python harness driving the "
-                                       "real code and the compiled Lean driver, AST extractor regenerating obligations"}],
+                                       "real code and the compiled Lean driver, AST extractors regenerating obligations, "
+                                       "AST-to-Lean translator of the numeric kernels with equivalence proofs"}],
         "checks": checks,
         "not_applicable": [{"property_id": p, "reason": WIP} for p in ALL if p not in CLAIMS],
         "notes": "fix: commits made in /repo are recorded in known_findings.json (status 'fixed: <commit>').",
